@@ -1,5 +1,87 @@
-From Coq Require Import ZArith List Bool Lia.
+(* C09 -- collected statements (the lemmas live in ProofsSem / ProofsRound / ProofsBits / ProofsInit / ProofsMain /
+   ProofsSpec / ProofsWf), corollaries for the two families of descriptions, the finding F5 at model level, and
+   non-vacuity examples. *)
+From Coq Require Import ZArith List Bool Lia String.
 Import ListNotations.
-From QCE Require Import C09.Stim C09.Spec C09.Sem C09.Model.
+From QCE Require Import Base.Prelude C09.Stim C09.Spec C09.Sem C09.Model C09.Wf
+  C09.ProofsSem C09.ProofsRound C09.ProofsBits C09.ProofsInit C09.ProofsMain C09.ProofsSpec C09.ProofsWf.
+From Gen Require Import Layouts.
+Open Scope list_scope.
 
-Lemma placeholder : True. Proof. exact I. Qed.
+(* ------------------------------------------------------------------ corollaries *)
+Lemma chain_data_length d rf : List.length (r_data (desc_of_chain d rf)) = d.
+Proof. unfold desc_of_chain. cbn [r_data]. apply evens_from_length. Qed.
+
+Theorem chain_record d rf init anc cycles :
+  (1 <= d)%nat -> List.length init = d -> (List.length anc <= d - 1)%nat ->
+  exec (rep_stim (desc_of_chain d rf) init anc cycles)
+  = Some (protocol_record init anc cycles rf, protocol_detectors init anc cycles rf, [protocol_observable init anc cycles rf]).
+Proof.
+  intros Hd Hi Ha.
+  apply (exec_protocol (desc_of_chain d rf) init anc cycles (wf_desc_chain d rf Hd)); rewrite chain_data_length; assumption.
+Qed.
+
+Theorem layout_record L ch rf init anc cycles :
+  In L shipped_layouts -> In ch (sub_chains (chain_of (layout_name L))) ->
+  List.length init = List.length (r_data (desc_of_layout L ch rf)) ->
+  (List.length anc <= List.length (r_data (desc_of_layout L ch rf)) - 1)%nat ->
+  exec (rep_stim (desc_of_layout L ch rf) init anc cycles)
+  = Some (protocol_record init anc cycles rf, protocol_detectors init anc cycles rf, [protocol_observable init anc cycles rf]).
+Proof.
+  intros HL Hch Hi Ha. apply (exec_protocol (desc_of_layout L ch rf) init anc cycles (wf_desc_layouts L ch rf HL Hch) Hi Ha).
+Qed.
+
+(* inside the fragment: no CZ between two X-basis qubits, no X-basis qubit measured *)
+Theorem in_fragment D init anc cycles :
+  wf_desc D = true -> List.length init = List.length (r_data D) -> (List.length anc <= List.length (r_data D) - 1)%nat ->
+  is_random (rep_stim D init anc cycles) = false /\ is_outside (rep_stim D init anc cycles) = false.
+Proof.
+  intros Hwf Hi Ha. pose proof (exec_protocol D init anc cycles Hwf Hi Ha) as H.
+  unfold exec in H. unfold is_random, is_outside. destruct (run (rep_stim D init anc cycles) start); [auto | discriminate | discriminate].
+Qed.
+
+(* ------------------------------------------------------------------ which ancilla values are prepared (finding F5) *)
+Lemma anc_prepared_own_from i init anc : anc_prepared_from AncOwn i init anc = anc.
+Proof. revert i. induction anc as [|b t IH]; intros i; simpl; [reflexivity | now rewrite IH]. Qed.
+
+Theorem own_source_prepares_requested init anc : anc_as_prepared AncOwn init anc = anc.
+Proof. apply anc_prepared_own_from. Qed.
+
+(* with the preparation code the source has now, data 0,1,0 / ancilla 1,0 / 2 cycles does not give the protocol's record *)
+Theorem requested_ancilla_prepared_refuted :
+  exists init anc cycles,
+    exec (rep_stim (desc_of_chain 3 true) init (anc_as_prepared AncFromData init anc) cycles)
+    <> Some (protocol_record init anc cycles true, protocol_detectors init anc cycles true, [protocol_observable init anc cycles true]).
+Proof. exists [false; true; false], [true; false], 2%nat. vm_compute. discriminate. Qed.
+
+(* ------------------------------------------------------------------ non-vacuity *)
+Example wf_chain_3 : wf_desc (desc_of_chain 3 true) = true.
+Proof. vm_compute. reflexivity. Qed.
+
+(* distance 3, data 0,1,0, ancillas 1,0, 4 cycles with refocusing: a record with accumulating parities and flipped data *)
+Example record_d3_c4 :
+  exec (rep_stim (desc_of_chain 3 true) [false; true; false] [true; false] 4)
+  = Some ([false; false; false; false; false;   false; true;  true; false;  false; true;  true; false;   true; false; true],
+          [false; true;  true; false;  false; false;  false; false;  false; false],
+          [false]).
+Proof. vm_compute. reflexivity. Qed.
+
+Example protocol_d3_c4 :
+  protocol_record [false; true; false] [true; false] 4 true
+  = [false; false; false; false; false;   false; true;  true; false;  false; true;  true; false;   true; false; true].
+Proof. vm_compute. reflexivity. Qed.
+
+(* a layout sub-chain whose ancillas are activated in different gate sequences *)
+Example wf_layout_sub :
+  wf_desc (desc_of_layout Repetition9Code ["D3"; "Z2"; "D6"; "Z4"; "D5"]%string true) = true
+  /\ In ["D3"; "Z2"; "D6"; "Z4"; "D5"]%string (sub_chains (chain_of "Repetition9Code"%string)).
+Proof. split; [vm_compute; reflexivity | vm_compute; tauto]. Qed.
+
+(* the well-formedness check is not vacuous: a gate between two ancillas is rejected *)
+Example wf_rejects :
+  wf_desc (MkDesc [0; 1; 2]%Z [0; 2]%Z [1]%Z [[(1, 1)]]%Z [[]] [(0, 2)]%Z true) = false.
+Proof. vm_compute. reflexivity. Qed.
+
+(* the semantics reports a measured X-basis qubit and an X-X controlled-Z *)
+Example sem_random : is_random [IGate G_H 0%Z; IM 0%Z] = true. Proof. reflexivity. Qed.
+Example sem_outside : is_outside [IGate G_H 0%Z; IGate G_H 1%Z; ICZ 0%Z 1%Z] = true. Proof. reflexivity. Qed.
